@@ -1,13 +1,18 @@
 #!/bin/bash
 # Developer tool: applies every behaviour-preserving refactoring under /verif/refactors/<id>/patch.diff to /repo in turn, runs all 20
 # quick checks (evidence to a scratch directory), restores /repo.  Expected: no check alarms.  Result: refactors/RESULTS.tsv
-cd /verif
-[ -z "$(git -C /repo status --short)" ] || { echo "/repo not clean"; exit 2; }
-SCR=$(mktemp -d /verif/_build/refac.XXXX)
+# REPO=<dir> (default /repo) selects the tree the patches are applied to (e.g. the snapshot $VP_RUN_REPO of a background run).
+V="$(cd "$(dirname "$0")/.." && pwd)"
+cd "$V"
+REPO=${REPO:-/repo}
+[ "$REPO" = /repo ] || export CURIES_SRC=$REPO/src
+[ ! -d $REPO/.git ] || [ -z "$(git -C $REPO status --short)" ] || { echo "$REPO not clean"; exit 2; }
+mkdir -p $V/_build
+SCR=$(mktemp -d $V/_build/refac.XXXX)
 export VERIF_EVIDENCE_DIR=$SCR/ev
 IDS=${@:-$(ls refactors | grep '^R')}
 for ID in $IDS; do
-  git -C /repo apply /verif/refactors/$ID/patch.diff || { echo "$ID: patch does not apply"; continue; }
+  (cd $REPO && git apply $V/refactors/$ID/patch.diff) || { echo "$ID: patch does not apply"; continue; }
   row=""
   for i in 01 02 03 04 05 06 07 08 09 10 11 12 13 14 15 16 17 18 19 20; do
     ./check C$i quick > $SCR/out 2>&1; rc=$?
@@ -16,7 +21,7 @@ for ID in $IDS; do
       cp $SCR/out refactors/$ID/alarm_C$i.log
     fi
   done
-  git -C /repo checkout -- .
+  (cd $REPO && git apply -R $V/refactors/$ID/patch.diff)
   echo -e "$ID\t${row:- none}" | tee -a $SCR/results
 done
 touch refactors/RESULTS.tsv
@@ -28,4 +33,4 @@ old.update(new)
 open(sys.argv[2],"w").write("".join(f"{k}\t{v}\n" for k,v in sorted(old.items())))
 PY
 rm -rf $SCR
-git -C /repo status --short | head -3
+[ ! -d $REPO/.git ] || git -C $REPO status --short | head -3
